@@ -17,6 +17,10 @@ CHECKS = {
     'C02': dict(engine='ProcessCore', technique='TLA+ ProcessCore/ProcessProps, TLC exhaustive (C02_* invariants) + replay of all TLC behaviours, accessor families compared',
                 text='Agreement of future/result/successful/killed_msg/exception, single terminal notification, cleanup once, closed, stepping task returned: invariants over every reachable state; the real accessors are read after every replayed action.',
                 ref='5 C02', note=CORE_NOTE),
+    'C03': dict(engine='ProcessCore', category='fault_enumeration',
+                technique='TLA+ ProcessFaults (fault plans + lockstep twin), TLC exhaustive over hook x occurrence x scenario, every faulty behaviour replayed into the real Process',
+                text='Complete enumeration of 31 hook points x occurrence 1..3 x scenario programs x <=K requests with one injected fault; outcome by hook class (user code -> EXCEPTED(F) closed, future raises F, task returns; listener -> state equal to a twin run; pause/play hook -> reported to requester, process live and killable); constructor faults checked directly.',
+                ref='5 C03', note=CORE_NOTE + ' Faults are raised after the base implementation of a hook.'),
     'C04': dict(engine='ProcessCore', technique='TLA+ ProcessCore/ProcessProps, TLC exhaustive (KillNoRaise, KillNotLost, KillReply, KillText, KillFromAnywhere = Drain(Kill(S)) in every live state) + replay',
                 text='Every placement of <=K kill/pause/play/resume/cancel requests and a re-entrant kill from listeners; kill futures and is_killing compared on the real process.',
                 ref='5 C04', note=CORE_NOTE),
